@@ -3220,6 +3220,41 @@ def flatten_nested_zips(fnode, counter):
     return changed
 
 
+
+def unstar_record_constructions(repo, f, counter):
+    """t = K(*call(..))   with K a plain NamedTuple / dataclass record of n fields   ->   t__r0, .., t__r{n-1} = call(..); t = K(t__r0, ..)
+    (both forms fail unless the call returns exactly n items), so that the record's fields are the items of the call's result"""
+    from .normalize import record_fields
+    changed = False
+
+    def rewrite(stmts):
+        nonlocal changed
+        out = []
+        for st in stmts:
+            for fld in ("body", "orelse", "finalbody"):
+                sub = getattr(st, fld, None)
+                if isinstance(sub, list) and sub and isinstance(sub[0], ast.stmt) and not isinstance(st, (ast.FunctionDef, ast.AsyncFunctionDef, ast.ClassDef)):
+                    setattr(st, fld, rewrite(sub))
+            if isinstance(st, ast.Assign) and len(st.targets) == 1 and isinstance(st.targets[0], ast.Name) and isinstance(st.value, ast.Call) and isinstance(st.value.func, ast.Name) \
+                    and len(st.value.args) == 1 and not st.value.keywords and isinstance(st.value.args[0], ast.Starred) and isinstance(st.value.args[0].value, ast.Call):
+                fields = record_fields(repo, f.mod, st.value.func.id, allow_methods=True)
+                if fields:
+                    k = counter[0]
+                    counter[0] += 1
+                    names = [f"{st.targets[0].id}__r{k}_{i}" for i in range(len(fields))]
+                    unpack = ast.Assign(targets=[ast.Tuple(elts=[ast.Name(id=n_, ctx=ast.Store()) for n_ in names], ctx=ast.Store())], value=st.value.args[0].value, lineno=st.lineno, col_offset=0)
+                    build = ast.Assign(targets=st.targets, value=ast.Call(func=st.value.func, args=[ast.Name(id=n_, ctx=ast.Load()) for n_ in names], keywords=[]), lineno=st.lineno, col_offset=0)
+                    ast.fix_missing_locations(unpack)
+                    ast.fix_missing_locations(build)
+                    out += [unpack, build]
+                    changed = True
+                    continue
+            out.append(st)
+        return out
+    f.node.body = rewrite(f.node.body)
+    return changed
+
+
 # --------------------------------------------------------------------------------------------------- deferred raise
 def undefer_raises(stmts):
     """problem = None; if A: problem = M1 [elif B: problem = M2 ...]; if problem is not None: raise E(problem)
@@ -3427,6 +3462,9 @@ def partial_evaluate(repo, max_rounds=8):
             if (steps or q in getattr(repo, "inlined", {})) and scalarise_display_locals(f, counter):
                 ch = True
                 steps.append("displays")
+            if unstar_record_constructions(repo, f, counter):
+                ch = True
+                steps.append("unstar-records")
             if propagate_record_locals(repo, f):
                 ch = True
                 steps.append("records")
